@@ -80,10 +80,13 @@ func c01genDefault(v reflect.Value, ch chan int, fn func()) {
 	}
 }
 
-func c01gen(nfields, nlayers int) {
+func c01gen(nfields, nlayers int) { c01genN(nfields, nlayers, len(c01genKinds)) }
+
+// nkinds: how many kinds of the alphabet (from its start) the fields are drawn from.
+func c01genN(nfields, nlayers, nkinds int) {
 	var sfs []reflect.StructField
 	for i := 0; i < nfields; i++ {
-		k := c01genKinds[zzverif.Choose("kind"+strconv.Itoa(i), len(c01genKinds))]
+		k := c01genKinds[zzverif.Choose("kind"+strconv.Itoa(i), nkinds)]
 		sfs = append(sfs, reflect.StructField{Name: k.name + strconv.Itoa(i), Type: k.t, Tag: k.tag})
 	}
 	st := reflect.StructOf(sfs)
@@ -131,5 +134,5 @@ func HarnessC01Gen2() { c01gen(1+zzverif.Choose("nfields", 2), 1) }
 // HarnessC01Gen2L2: 2 fields, two layers.
 func HarnessC01Gen2L2() { c01gen(2, 2) }
 
-// HarnessC01Gen3: all 5832 types of 3 fields, one layer.
-func HarnessC01Gen3() { c01gen(3, 1) }
+// HarnessC01Gen3: all 1728 types of 3 fields over the first 12 kinds, one layer.
+func HarnessC01Gen3() { c01genN(3, 1, 12) }
